@@ -20,6 +20,7 @@ static uint64_t vclock_ms;
 static uv_loop_t* g_loop;
 static int quiet;
 static int npolls;
+static int drain_hang;
 #define MAXPOLLS 4000
 
 int __real_clock_gettime(clockid_t id, struct timespec* ts);
@@ -37,6 +38,13 @@ int __wrap_epoll_pwait(int epfd, struct epoll_event* ev, int max, int timeout, c
   int n;
   if (g_loop == NULL || epfd != g_loop->backend_fd)
     return __real_epoll_pwait(epfd, ev, max, timeout, ss);
+  if (quiet && ++npolls > MAXPOLLS) {
+    /* final drain (every handle closed by the harness) does not come to an end */
+    drain_hang = 1;
+    g_loop->stop_flag = 1;
+    if (timeout > 0) vclock_ms += (uint64_t) timeout;
+    return 0;
+  }
   if (!quiet && ++npolls > MAXPOLLS) {
     /* the loop is spinning (or crawling) without running callbacks: say so once and break out */
     if (npolls == MAXPOLLS + 1) printf("!spin ");
@@ -48,6 +56,7 @@ int __wrap_epoll_pwait(int epfd, struct epoll_event* ev, int max, int timeout, c
     extern int poll_flags(void);
     extern void end_run_ext(void);
     end_run_ext();
+    { extern void settle_ext(void); settle_ext(); }
     int f = poll_flags();
     printf("w%d:%d%d%d%d ", timeout, (f >> 3) & 1, (f >> 2) & 1, (f >> 1) & 1, f & 1);
   }
@@ -145,9 +154,15 @@ static void idle_cb(uv_idle_t* h) { on_cb(1, idx(h)); }
 static void prepare_cb(uv_prepare_t* h) { on_cb(2, idx(h)); }
 static void check_cb(uv_check_t* h) { on_cb(3, idx(h)); }
 static void async_cb(uv_async_t* h) { on_cb(4, idx(h)); }
-static void after_cb(uv_work_t* r, int st) { (void) st; on_cb(5, ((struct wk*) r)->id); }
+/* Outstanding requests, counted by the harness itself (not read from the loop): requests with a
+ * completion callback are outstanding until that callback; requests without one are outstanding from
+ * the submission at most until the end of the first poll phase that began after the work had finished
+ * and been posted to the loop (Q waits for that), because uv__work_done runs in that phase. */
+static int cbw_out, qn_null, seen_null, settled_null;
+static void after_cb(uv_work_t* r, int st) { (void) st; cbw_out--; on_cb(5, ((struct wk*) r)->id); }
 void close_cb(uv_handle_t* h) { H[idx(h)]->closed = 1; on_cb(6, idx(h)); }
 static void work_cb(uv_work_t* r) { (void) r; }
+void settle_ext(void) { settled_null = seen_null; seen_null = qn_null; }
 
 static void do_ops(char* ops, int in_cb) {
   char* save = NULL; char* tok;
@@ -224,6 +239,7 @@ static void do_ops(char* ops, int in_cb) {
           sched_yield();
         }
         printf("r%d ", r);
+        if (r == 0) { if (c) cbw_out++; else qn_null++; }
       }
       break;
     case 'X': uv_stop(&loop); printf("x "); break;
@@ -236,11 +252,13 @@ static void do_ops(char* ops, int in_cb) {
         printf("%d%d%d%d,", uv_is_active(&H[j]->u.h) ? 1 : 0, uv_has_ref(&H[j]->u.h) ? 1 : 0,
                uv_is_closing(&H[j]->u.h) ? 1 : 0, H[j]->closed);
       printf(" ");
+      if ((int) loop.active_reqs.count < cbw_out || (int) loop.active_reqs.count > cbw_out + (qn_null - settled_null))
+        printf("!reqs%u,%d,%d ", loop.active_reqs.count, cbw_out, cbw_out + (qn_null - settled_null));
       break; }
     case 'B': printf("b%d ", uv_backend_timeout(&loop)); break;
     case 'R':
       if (!in_cb && sscanf(tok + 1, "%d", &c) == 1 && printf("g%d,%d ", c, uv_loop_alive(&loop) ? 1 : 0))
-        { int rr = uv_run(&loop, c == 0 ? UV_RUN_DEFAULT : c == 1 ? UV_RUN_ONCE : UV_RUN_NOWAIT); end_run(); printf("u%d ", rr ? 1 : 0); }
+        { int rr = uv_run(&loop, c == 0 ? UV_RUN_DEFAULT : c == 1 ? UV_RUN_ONCE : UV_RUN_NOWAIT); end_run(); settled_null = seen_null; printf("u%d ", rr ? 1 : 0); }
       break;
     case 'Z':
       if (!in_cb) {
@@ -263,7 +281,7 @@ int main(void) {
     *p1++ = 0; p2 = strchr(p1, ';'); if (!p2) { printf("\n"); continue; }
     *p2++ = 0;
     sscanf(line, "%llu %d", &t0, &metrics);
-    vclock_ms = t0; quiet = 0; npolls = 0; run_kind = -1; nh = nw = nbeh = cbcount = 0;
+    vclock_ms = t0; quiet = 0; npolls = 0; run_kind = -1; cbw_out = qn_null = seen_null = settled_null = 0; nh = nw = nbeh = cbcount = 0;
     uv_loop_init(&loop);
     g_loop = &loop;
     if (metrics) uv_loop_configure(&loop, UV_METRICS_IDLE_TIME);
@@ -278,16 +296,18 @@ int main(void) {
       }
     }
     do_ops(p1, 0);
-    printf("\n");
     fflush(stdout);
     if (g_loop != NULL) {
-      quiet = 1;
+      quiet = 1; npolls = 0; drain_hang = 0;
       for (k = 0; k < nh; k++)
         if (!H[k]->closed && !H[k]->closing) { H[k]->closing = 1; uv_close(&H[k]->u.h, close_cb); }
       uv_run(&loop, UV_RUN_DEFAULT);
+      if (drain_hang) printf("!drainhang ");
       uv_loop_close(&loop);
       g_loop = NULL;
     }
+    printf("\n");
+    fflush(stdout);
     for (k = 0; k < nh; k++) free(H[k]);
     for (k = 0; k < nw; k++) free(W[k]);
   }
